@@ -20,6 +20,7 @@ import concurrent.futures
 import json
 import os
 import random
+import shutil
 
 import vlib
 
@@ -107,6 +108,13 @@ def judge(sink, c, r):
                                  index_value_needs_json_escaping=vals.get(fr["id"]) in NEEDS_ESC))
             for fr in q.get("routing") or []:
                 # the topic / index / copied field / host next to an event is not the one of that event
+                if sink == "elasticsearch" and vals.get(fr["id"]) in NEEDS_ESC:
+                    # the unescaped splice of the index value again: the action line happens to stay valid JSON
+                    # (svc a\\b -> "c19-a\\b": backspace) but names another index -- same input class, same line
+                    recs.append(dict(base, kind="framing", where="action_line", id=fr["id"], text=fr["text"],
+                                     index_value_needs_json_escaping=True,
+                                     manifestation="valid JSON, decodes to a different index name"))
+                    continue
                 recs.append(dict(base, kind="routing", where=fr["where"], id=fr["id"], text=fr["text"],
                                  val_class=vals.get(fr["id"])))
             for i in q.get("doc_diff") or []:
@@ -190,6 +198,11 @@ def run(ctx):
     ctx.overlay_json()
     pool = concurrent.futures.ThreadPoolExecutor(max_workers=6)
     # the Go builds and the small TLC runs go on in the background while the big TLC run enumerates the cases
+    md = os.path.join(ctx.scratch, "gomod")                       # go_test_build creates it lazily: not thread-safe
+    if not os.path.isdir(md):
+        os.makedirs(md)
+        for f in ("go.mod", "go.sum"):
+            shutil.copy(os.path.join(vlib.REPO, f), md)
     build_f = {s: pool.submit(ctx.go_test_build, PKG[s]) for s in sinks}
     bg = vlib.Ctx.__new__(vlib.Ctx)                                # own run counter / run list, same scratch
     bg.__dict__.update(ctx.__dict__)
